@@ -127,6 +127,12 @@ def _case_eval(ev0, network, rec, node_i, elem_i, case):
         if lit is not True: return ('skip',)          # the node label is a loop variable over the map: never the reference
         ev.add_fact(mine - zero, '==0')
     g = ev.refold(guard) if isinstance(guard, Opq) else guard
+    if isinstance(g, Cond):
+        # `if sign:` on a value selected by the same tests: decided in this case like the value itself
+        g = refold_value(ev, g)
+        if isinstance(g, Cond): g = ev.truth(g)
+        c_ = as_poly(g).real_const() if isinstance(g, (Poly, int)) and not isinstance(g, bool) else None
+        if c_ is not None: g = c_ != 0
     if g is False: return ('val', 0)
     v = refold_value(ev, val)
     if g is not True: return ('undecided', f'guard {g!r:.80}')
